@@ -30,6 +30,8 @@ def write(prop, tier, seed, eng, cfg, res, report, violations_out, known_out,
         "samples": samples,
         "exhaustive": False,
         "simulated_runs": runs,
+        "of_which_enumerated": res.get("systematic_runs", 0),
+        "enumerated_families": getattr(eng, "SYSTEMATIC_DOC", None),
         "seeds": {"VERIF_SEED": seed, "run_numbers": [0, max(0, cfg["runs"] - 1)],
                   "prng": "random.Random(VERIF_SEED*1000003 + run) generates the whole plan "
                           "before execution; the executor draws nothing"},
